@@ -22,6 +22,9 @@ D. call histories   — every single call, ordered pair (thorough: triple) of ca
    sampling and mask pixel count with different masks; same mask, other coefficients; other wavelength / rotation; same
    shapes, other values), each history on freshly re-imported modules, the LAST call judged by the usual oracle: a result
    must not depend on earlier calls. Conversions and merge must also leave their argument dictionaries/tensors bit-identical.
+E. fit histories    — on ONE DirectPtychography object whose stack is synthesised from known aberrations: every ordered pair
+   (thorough: triple) of {cross-correlation fits, least-squares fits (each method), grid / optuna search, reconstruct, clear_optimized}
+   ending in a judged fit: the last fit equals the same fit on a fresh object and the cross-correlation fit recovers the truth.
 C. fit lattice      — (C10, C12, phi12, rotation) grid in the identifiable domain x 3 masks x 2 detector
    shapes: shifts predicted with the public gradient functions on the rotated detector grid, fed to
    fit_aberrations_from_shifts, return the generating values.
@@ -1419,6 +1422,162 @@ def eval_history(item, depth=2, family="fit"):
     return t
 
 
+# ----------------------------------------------------------------------------- part E: fit / search histories on ONE object
+# A fit's result must not depend on what was fitted, searched or reconstructed before on the same DirectPtychography object:
+# every ordered pair (thorough: triple) of events ending in a judged fit; the LAST fit is compared with the same fit on a
+# fresh object, and - the stack being synthesised from known aberrations - the cross-correlation fit must recover them.
+# Judged as last event: the cross-correlation fits, the two searches and the least-squares fit with use_initial_state=True.
+# The plain least-squares fit documents that it starts from the object's CURRENT (optimized) aberrations - a refinement by
+# design - so it only appears as an EARLIER event.
+RH_TRUE = {"C10": -150.0, "C12": 30.0, "phi12": 0.4}
+RH_ROT = 0.3
+RH_SCAN = (28, 32)
+RH_SCAN_SAMPLING = (0.5, 0.5)
+RH_G = 9
+RH_KS = 0.05
+RH_EVENTS = [
+    ["xcorr", "bins21"],
+    ["xcorr", "seeded_bins1"],
+    ["lsq", "recursive"],
+    ["lsq", "global"],
+    ["lsq", "sequential"],
+    ["lsq_initial_state", "recursive"],
+    ["grid", "C10"],
+    ["optuna", "C10"],
+    ["recon", "ssb"],
+    ["recon", "prlx"],
+    ["clear", ""],
+]
+RH_JUDGED = ["xcorr", "lsq_initial_state", "grid", "optuna"]
+# image-based recovery (cross-correlation of 29 shifted 28x32 images, upsampling 4): observed on HEAD C10 1.2e-4, C12 3.8e-4
+# (relative to |C10|), phi12 6.6e-4 rad, rotation 4.2e-4 rad (identical for every history); the seeded stale-state fit returns
+# C10 = +45 for -150. C10 / C12 / phi12 use TOL_FIT (1e-2); the rotation needs 20 x 4.2e-4 -> 1e-2 rad instead of TOL_ROT.
+RH_TOL_ROT = 1e-2
+_RH_CACHE = {}
+
+
+def make_recovery_dp():
+    from quantem.core.datastructures import Dataset2d, Dataset3d
+    from quantem.diffractive_imaging.direct_ptychography import DirectPtychography
+
+    if "stack" not in _RH_CACHE:
+        from quantem.core.utils.utils import electron_wavelength_angstrom
+
+        G = RH_G
+        kx = np.fft.fftfreq(G) * G
+        KX, KY = np.meshgrid(kx, kx, indexing="ij")
+        mask = (KX**2 + KY**2) <= 3.2**2
+        lam = float(electron_wavelength_angstrom(80e3))
+        sampling = (1 / (RH_KS * G), 1 / (RH_KS * G))
+        sh = predicted_shifts((G, G), sampling, lam, torch.tensor(mask), RH_ROT, RH_TRUE).numpy().astype(np.float64)
+        sh_px = sh / np.array(RH_SCAN_SAMPLING)
+        rng = np.random.default_rng(1205)
+        obj = rng.normal(size=RH_SCAN)
+        qx = np.fft.fftfreq(RH_SCAN[0])[:, None]
+        qy = np.fft.fftfreq(RH_SCAN[1])[None, :]
+        obj = np.fft.ifft2(np.fft.fft2(obj) * np.exp(-(qx**2 + qy**2) / (2 * 0.12**2))).real
+        obj = 1 + 0.3 * obj / obj.std()
+        F = np.fft.fft2(obj)
+        # parallax moves image k by +shift_k to undo the aberration, so the raw image sits at -shift_k
+        stack = np.stack([np.fft.ifft2(F * np.exp(-2j * np.pi * (qx * (-s[0]) + qy * (-s[1])))).real for s in sh_px]).astype(np.float32)
+        _RH_CACHE["stack"] = (stack, mask)
+    stack, mask = _RH_CACHE["stack"]
+    vd = Dataset3d.from_array(stack.copy(), name="vbf", units=("index", "A", "A"), sampling=(1,) + RH_SCAN_SAMPLING)
+    md = Dataset2d.from_array(mask.copy(), name="bf", units=("A^-1", "A^-1"), sampling=(RH_KS, RH_KS))
+    return DirectPtychography.from_virtual_bfs(vd, md, energy=80e3, rotation_angle=0.0, semiangle_cutoff=20.0, crop_bf_mask=False, verbose=False, rng=0)
+
+
+def rh_apply(dp, ev):
+    import optuna
+
+    from quantem.diffractive_imaging.direct_ptychography import OptimizationParameter
+
+    kind, arg = ev
+    if kind == "xcorr":
+        if arg == "bins21":
+            dp.fit_hyperparameters_cross_correlation(rotation_angle=0.0, bin_factors=(2, 1), verbose=0)
+        else:
+            dp.fit_hyperparameters_cross_correlation(aberration_coefs={"C10": -100.0}, rotation_angle=0.2, bin_factors=(1,), verbose=0)
+    elif kind == "lsq":
+        dp.fit_hyperparameters_least_squares(aberration_coefs={"C10": -100.0}, cartesian_basis="quadratic", fit_method=arg, verbose=0)
+    elif kind == "lsq_initial_state":
+        dp.fit_hyperparameters_least_squares(cartesian_basis="quadratic", fit_method=arg, use_initial_state=True, verbose=0)
+    elif kind == "grid":
+        dp.grid_search_hyperparameters(aberration_coefs={"C10": OptimizationParameter(-200.0, -100.0, n_points=3)}, rotation_angle=0.3, verbose=0)
+    elif kind == "optuna":
+        dp.optimize_hyperparameters(aberration_coefs={"C10": OptimizationParameter(-200.0, -100.0)}, rotation_angle=0.3, n_trials=2, sampler=optuna.samplers.TPESampler(seed=0), verbose=0)
+    elif kind == "recon":
+        dp.reconstruct(deconvolution_kernel=arg, verbose=False)
+    elif kind == "clear":
+        dp.hyperparameter_state.clear_optimized()
+    else:
+        raise ValueError(ev)
+
+
+def rh_observe(dp):
+    st = dp.hyperparameter_state
+    return {
+        "optimized_aberrations": {k: float(v) for k, v in st.optimized_aberrations.items()},
+        "optimized_rotation_angle": None if st.optimized_rotation_angle is None else float(st.optimized_rotation_angle),
+        "corrected_bf": dp.corrected_bf.detach().numpy().copy(),
+    }
+
+
+def rh_history(hist, verbose=False):
+    """Returns list of (cls, msg)."""
+    last = hist[-1]
+    key = json.dumps(last)
+    with quiet():
+        if key not in _RH_CACHE:
+            fresh = make_recovery_dp()
+            rh_apply(fresh, last)
+            _RH_CACHE[key] = rh_observe(fresh)
+        dp = make_recovery_dp()
+        for ev in hist:
+            rh_apply(dp, ev)
+        got = rh_observe(dp)
+    fails = []
+    diffs = compare_obs(got, _RH_CACHE[key])
+    if diffs and len(hist) > 1:
+        fails.append(({"part": "fit_history", "relation": "fit_independent_of_earlier_events_on_the_object", "last_event": last[0]}, f"after {hist[:-1]} on the same object, {last} gives {summ(got)}; the same call on a fresh object gives {summ(_RH_CACHE[key])}: " + "; ".join(diffs[:3])))
+    if last == ["xcorr", "bins21"]:
+        ab, rot = got["optimized_aberrations"], got["optimized_rotation_angle"]
+        dphi = ((ab.get("phi12", 0.0) - RH_TRUE["phi12"] + math.pi / 2) % math.pi) - math.pi / 2
+        errs = {"C10": abs(ab.get("C10", 0.0) - RH_TRUE["C10"]) / 150.0, "C12": abs(ab.get("C12", 0.0) - RH_TRUE["C12"]) / 150.0, "phi12": abs(dphi), "rotation_angle": abs((rot or 0.0) - RH_ROT)}
+        bad = [k for k in ("C10", "C12", "phi12") if not (errs[k] <= TOL_FIT)] + (["rotation_angle"] if not (errs["rotation_angle"] <= RH_TOL_ROT) else [])
+        if bad:
+            fails.append(({"part": "fit_history", "relation": "cross_correlation_fit_recovers_generating_values", "history_length": "1" if len(hist) == 1 else ">1"}, f"history {hist}: the stack is synthesised from {RH_TRUE}, rotation {RH_ROT}; fitted {ab}, rotation {rot} (wrong: {bad}, errors {errs})"))
+        if verbose:
+            print(f"    recovery errors {errs}")
+    if verbose:
+        print(f"    history {hist}: {summ(got)}\n    fresh object, last event only: {summ(_RH_CACHE[key])}")
+    return fails
+
+
+def eval_fit_history(item, depth=2):
+    """item = first event; all histories of the given depth that start with it and end in a judged fit (and the single fit)."""
+    t = Tally()
+    first = list(item)
+    lasts = [e for e in RH_EVENTS if e[0] in RH_JUDGED]
+    tails = ([[]] if first[0] in RH_JUDGED else []) + [[e] for e in lasts]
+    if depth >= 3:
+        tails += [[m, e] for m in RH_EVENTS[::2] for e in lasts]
+    for tail in tails:
+        hist = [first] + tail
+        case = {"part": "fit_history", "history": hist}
+        try:
+            fails = rh_history(hist)
+        except Exception as e:
+            t.case(key=hist, nontrivial=True, outcome="raised")
+            t.fail({"part": "fit_history", "relation": "history_runs", "last_event": hist[-1][0]}, case, f"fit history {hist}: raised {type(e).__name__}: {str(e)[:200]}")
+            continue
+        t.case(key=hist, nontrivial=len(hist) > 1, outcome=None)
+        t.extra["fit_histories"] += 1
+        for cls, msg in fails:
+            t.fail(cls, case, msg)
+    return t
+
+
 # ----------------------------------------------------------------------------- run / replay
 def static_checks(ctx):
     """Naming schemes: the library's symbol/label/preset tables against the own statement of the convention."""
@@ -1470,6 +1629,7 @@ def run(ctx):
         "coefficient values {0, +-1, +-1234.5}, angles {0, 0.37, -1.1, pi/m}, wavelengths at 80 and 300 kV are alphabets (the surface is linear in every C and 1/wavelength-homogeneous)",
         "an alias and its canonical symbol are never given in the same dictionary (ambiguous, not part of the claim)",
         "fit: identifiable domain |C12| < |C10|, |rotation| < pi/2; phi12 compared modulo pi",
+        "fit histories: the plain least-squares fit starts from the object's current (optimized) aberrations by design (refinement), so it is only an earlier event; judged last events are the cross-correlation fits, both searches and the least-squares fit with use_initial_state=True",
         "alias differential runs use one seeded 6x7-scan, 21-pixel bright-field problem at 80 kV (VERIF_SEED fills the data)",
     )
     unknown = static_checks(ctx)
@@ -1519,6 +1679,11 @@ def run(ctx):
     if ctx.quick:  # trimmed: every detector x mask still sees every (C10, C12); phi/rot loops are complete inside
         fitems = [it for i, it in enumerate(fitems) if it[0] == 0 or it[1] == "disc"]
     mC = ctx.pmap(eval_fit, fitems, chunk=1, label="fit")
+    # ---- E: fit / search histories on one object (last fit == the same fit on a fresh object; recovery of the generating values)
+    fdepth = 2 if ctx.quick else 3
+    mFH = ctx.pmap(eval_fit_history, RH_EVENTS, chunk=1, label="fit histories on one object", depth=fdepth)
+    if ctx.tally.nfails == 0 and mFH.n < 50:
+        raise Broken(f"fit-history part degenerate: {mFH.n} histories")
     # ---- D: call histories (fresh modules per history, last call judged)
     fcalls, mcalls = hist_fit_calls(), hist_math_calls()
     for g, names in HIST_MASKS.items():  # the alphabet must really collide on the pixel count
@@ -1554,6 +1719,7 @@ def run(ctx):
                 "other_calls": f"{len(mcalls)} = {HIST_KINDS} x coefficient sets / label lists x 2 same-shape grids x 2 wavelengths",
                 "histories": "every single call, every ordered pair" + ("" if ctx.quick else ", every triple with the middle call from every 3rd alphabet member") + "; modules re-imported before each history",
             },
+            "fit_histories": {"events": RH_EVENTS, "judged_as_last_event": RH_JUDGED, "problem": f"29 bright-field images {RH_SCAN} shifted by the shifts the public gradient functions predict for {RH_TRUE}, rotation {RH_ROT}", "histories": "every single judged fit and every ordered pair ending in one" + ("" if ctx.quick else ", every triple (middle event: every 2nd member)")},
             "label_order": [nm for nm, _ in lists] + ["every ordered pair of distinct labels (600)"] + [f"least-squares fit: {v[0]} ({v[3]})" for v in ORDER_FIT_VARIANTS],
             "aliases": {a: f"{v[0]} x {v[1]:+g}" for a, v in MY_ALIASES.items()},
             "alias_values_d": DVALS,
@@ -1567,6 +1733,8 @@ def run(ctx):
         fit_order_points=int(mFO.n),
         alias_points=int(mB.n),
         fit_points=int(mC.n),
+        fit_histories_on_one_object=int(mFH.n),
+        fit_history_depth=fdepth,
         call_histories_fit=int(mH.n),
         call_histories_fit_colliding_on_coarse_key=int(mH.extra["histories_colliding_on_coarse_key"]),
         call_histories_other_functions=int(mH2.n),
@@ -1611,6 +1779,9 @@ def replay(ctx, case):
         if not (ratio <= 1.0):
             rel_ = "call_alone_matches_oracle" if len(hist) == 1 else "result_independent_of_earlier_calls"
             ctx.fail({"part": "history", "relation": rel_, "last_call": hist[-1][0]}, case, f"after the calls {hist[:-1]} the call {hist[-1]} deviates from its oracle by {ratio:.3e} x tolerance ({detail})")
+    elif part == "fit_history":
+        for cls, msg in rh_history(case["history"], verbose=True):
+            ctx.fail(cls, case, msg)
     elif part == "fit_order":
         fails, errs, ca = fit_order_case(case, verbose=True)
         for cls, msg in fails:
